@@ -87,20 +87,7 @@ class RefServer:
                         return self._reply(200, b"OK", b""), info
                     body = self._encode_output(b"")
                     return self._reply(200, b"OK", body), info
-                pad_n = rc.ref_pad_len(16 + len(task["data"]))
-                padkind = self.cfg["peer"]["task_pad"]
-                if padkind == "A":
-                    pad = b"A" * pad_n
-                elif padkind == "zero":
-                    pad = bytes(pad_n)
-                else:
-                    pad = bytes((core.draw(self.run_seed, "srv", "pad", self.resp_n, i) & 0xFF) for i in range(pad_n))
-                pt = rc.pack_task(epoch, task["cmd"], task["data"], pad)
-                info["task_plain"] = pt
-                ct, sig = rc.ref_encrypt(pt, s.aes_key, s.hmac_key)
-                info["task_ct"], info["task_sig"] = ct, sig
-                body = self._encode_output(ct + sig)
-                return self._reply(200, b"OK", body), info
+                return self.task_response(s, task, epoch, info), info
             else:
                 vals = rc.ref_decode_request(self.cfg["post"], req.path, req.params, req.headers, req.body, [self.submit_uri])
                 sid = vals.get("id", b"")
@@ -125,6 +112,23 @@ class RefServer:
         except rc.RefDecodeError as e:
             info["error"] = str(e)
             return self._reply(404, b"Not-Found", b""), info
+
+    def task_response(self, s: Session, task: dict, epoch: int, info: dict) -> bytes:
+        """The wire form of a response carrying `task` for session `s`."""
+        pad_n = rc.ref_pad_len(16 + len(task["data"]))
+        padkind = self.cfg["peer"]["task_pad"]
+        if padkind == "A":
+            pad = b"A" * pad_n
+        elif padkind == "zero":
+            pad = bytes(pad_n)
+        else:
+            pad = bytes((core.draw(self.run_seed, "srv", "pad", self.resp_n, i) & 0xFF) for i in range(pad_n))
+        pt = rc.pack_task(epoch, task["cmd"], task["data"], pad)
+        info["task_plain"] = pt
+        ct, sig = rc.ref_encrypt(pt, s.aes_key, s.hmac_key)
+        info["task_ct"], info["task_sig"] = ct, sig
+        body = self._encode_output(ct + sig)
+        return self._reply(200, b"OK", body)
 
     def _encode_output(self, output: bytes) -> bytes:
         steps = self.cfg["server"]
